@@ -24,6 +24,10 @@ extern "C" fn mock_select(
     0
 }
 
+extern "C" fn mock_poll(_f: *mut libc::pollfd, _n: libc::nfds_t, _t: c_int) -> c_int {
+    0
+}
+
 // ---------------------------------------------------------------- scripted kernel for socket I/O
 #[derive(Copy, Clone, Debug)]
 enum Resp {
@@ -173,6 +177,16 @@ fn main() {
             let e = errno();
             println!("{{\"ret\": {r}, \"errno\": {e}, \"elapsed_us\": {}}}", t0.elapsed().as_micros());
         }
+        // poll <timeout_ms>: nothing ready; prints elapsed time, result, errno
+        "poll" => {
+            init_event_loops();
+            let f: extern "C" fn(*mut libc::pollfd, libc::nfds_t, c_int) -> c_int = mock_poll;
+            let mut fds = libc::pollfd { fd: 0, events: libc::POLLIN, revents: 0 };
+            let t0 = Instant::now();
+            let r = syscall::poll(Some(&f), &raw mut fds, 1, num(2) as c_int);
+            let e = errno();
+            println!("{{\"ret\": {r}, \"errno\": {e}, \"elapsed_us\": {}}}", t0.elapsed().as_micros());
+        }
         // io <read|recv|write|send> <len> <blocking 0|1> <script...>: one hooked single-buffer call on a real
         // socketpair descriptor with a scripted kernel in place of libc
         "io" => {
@@ -291,6 +305,60 @@ fn main() {
                     MOVED, CALLS, LAST_ERRNO, still_blocking, bufs, &SINK[..32]
                 );
             }
+        }
+        // sockopt <op>...: history over two real stream sockets (slot 0 / slot 1). ops: `<slot>R<sec>.<usec>` set SO_RCVTIMEO
+        // through the hooked setsockopt, `<slot>S<sec>.<usec>` set SO_SNDTIMEO, `<slot>r` / `<slot>s` query the limit hooked
+        // reads / writes apply, `<slot>c` hooked close followed by a fresh socket that reuses the number.
+        // Each query prints the applied limit next to what the real kernel reports for the socket (getsockopt).
+        "sockopt" => {
+            init_event_loops();
+            let (a, _pa) = socketpair(true);
+            let (b, _pb) = socketpair(true);
+            let mut fds = [a, b];
+            let mut peers = [_pa, _pb];
+            let kernel_limit = |fd: c_int, name: c_int| -> u64 {
+                let mut tv: libc::timeval = unsafe { std::mem::zeroed() };
+                let mut len = std::mem::size_of::<libc::timeval>() as libc::socklen_t;
+                assert_eq!(0, unsafe { libc::getsockopt(fd, libc::SOL_SOCKET, name, (&raw mut tv).cast(), &raw mut len) });
+                let ns = (tv.tv_sec as u64) * 1_000_000_000 + (tv.tv_usec as u64) * 1_000;
+                if ns == 0 { u64::MAX } else { ns }
+            };
+            let mut out = String::from("[");
+            for (i, op) in args[2..].iter().enumerate() {
+                if i > 0 { out.push(','); }
+                let slot = (op.as_bytes()[0] - b'0') as usize;
+                let fd = fds[slot];
+                match op.as_bytes()[1] {
+                    k @ (b'R' | b'S') => {
+                        let (sec, usec) = op[2..].split_once('.').expect("sec.usec");
+                        let tv = libc::timeval { tv_sec: sec.parse().expect("sec"), tv_usec: usec.parse().expect("usec") };
+                        let name = if k == b'R' { libc::SO_RCVTIMEO } else { libc::SO_SNDTIMEO };
+                        // progress marker: if the hooked call aborts the process the marker shows which operation did
+                        eprintln!("op {i} {op}: calling hooked setsockopt");
+                        let r = syscall::setsockopt(None, fd, libc::SOL_SOCKET, name, (&raw const tv).cast(), std::mem::size_of::<libc::timeval>() as libc::socklen_t);
+                        out.push_str(&format!("{{\"op\": \"{op}\", \"ret\": {r}}}"));
+                    }
+                    k @ (b'r' | b's') => {
+                        let (got, want) = if k == b'r' {
+                            (syscall::recv_time_limit(fd), kernel_limit(fd, libc::SO_RCVTIMEO))
+                        } else {
+                            (syscall::send_time_limit(fd), kernel_limit(fd, libc::SO_SNDTIMEO))
+                        };
+                        out.push_str(&format!("{{\"op\": \"{op}\", \"applied\": {got}, \"kernel\": {want}}}"));
+                    }
+                    b'c' => {
+                        let r = syscall::close(None, fd);
+                        unsafe { libc::close(peers[slot]); }
+                        let (n, pn) = socketpair(true);
+                        fds[slot] = n;
+                        peers[slot] = pn;
+                        out.push_str(&format!("{{\"op\": \"{op}\", \"ret\": {r}, \"old_fd\": {fd}, \"new_fd\": {n}}}"));
+                    }
+                    _ => panic!("bad op {op}"),
+                }
+            }
+            out.push(']');
+            println!("{{\"ops\": {out}}}");
         }
         // wake_latency <trials> <delay_us>: a coroutine blocks in a hooked recv on a socket; the peer writes
         // `delay_us` after the coroutine started waiting. Prints the latency seen by the coroutine per trial.
